@@ -865,6 +865,7 @@ func (l *lexer) readHeredocs() bool {
 			return false
 		}
 	}
+	l.mark(0)
 	return true
 }
 
